@@ -11,7 +11,7 @@ def keyMatJson : KeyMat → Json
   | .other => Json.mkObj [("kind", "other")]
 
 def schemeStr : SigScheme → String
-  | .ecdsa => "ecdsa" | .eddsa => "eddsa" | .pkcs1 => "pkcs1" | .pss => "pss"
+  | .ecdsa => "ecdsa" | .eddsa => "eddsa" | .pkcs1 => "pkcs1" | .pss => "pss" | .pssEq => "pssEq"
 
 def askJson : Ask → Json
   | .sha256 d => Json.mkObj [("ask", "sha256"), ("data", hex d)]
